@@ -73,9 +73,16 @@ def parseReqHdrs (fs : List String) : List (Bytes × Bytes) :=
 def elemBinds : Elem → List Bytes
   | .ident _ => []
   | .bind n => [n]
-  | .params ps => ps.filterMap fun p => match p.val with
-      | .re _ => some p.ident
-      | .lit _ => if p.val = .lit starStar then some p.ident else none
+  | .params ps =>
+    -- a match-all list (`{x: **, capture: 2}`): only its first parameter is a bind, whatever the others look like
+    -- (`capture: /2/` is an option spelled as an expression, not a second bind); a regex list: every parameter
+    match ps with
+    | p :: _ =>
+      if p.val = .lit starStar then [p.ident]
+      else ps.filterMap fun q => match q.val with
+        | .re _ => some q.ident
+        | .lit _ => none
+    | [] => []
 
 def formBinds (r : Route) (long : Bool) : List Bytes :=
   let segs := if long then r.segs else r.segs.dropLast
